@@ -366,8 +366,9 @@ class TDMProgram(Program):
 
     @property
     def measured_modes(self):
-        """The number of measured modes in the program returned as a list."""
-        return list(self._measured_modes)
+        """The measured modes in the program returned as a list, sorted by mode index, i.e. in the
+        order of the bands/spatial modes (which `reshape_samples` relies on)."""
+        return sorted(self._measured_modes)
 
     @property
     def timebins(self):
